@@ -51,6 +51,18 @@ try:
     d=json.load(open('$SCRATCH/out.json')); print(len({v['signature'] for v in d['violations']}))
 except Exception: print(-1)")
     if [ "$n" -gt 0 ]; then res="$res $p:caught($n)"; caught_any=1; else res="$res $p:missed"; fi
+    # optionally keep the smallest failing case as a regression replay (passes on the clean tree)
+    if [ -n "${REPLAY_OUT:-}" ] && [ "$n" -gt 0 ]; then
+      python3 - "$SCRATCH/out.json" "$REPLAY_OUT/$p-seeded-${id%%-*}.json" "$id" <<'PY'
+import json,sys
+d=json.load(open(sys.argv[1]))
+v=min(d['violations'], key=lambda v:(v.get('size',0), len(json.dumps(v['case']))))
+if len(json.dumps(v['case'])) < 200000:
+    doc={"property":v['property'],"signature":v['signature'],"profile":"chk","spec":v.get('spec'),
+         "message":"found with seeded change %s applied: %s" % (sys.argv[3], v['message'][:300]),"case":v['case']}
+    json.dump(doc,open(sys.argv[2],'w'),indent=1,sort_keys=True)
+PY
+    fi
   done
   [ $caught_any = 1 ] || FAIL=1
   echo "| $id | $main |$res |" >> "$OUT_MD"
